@@ -77,9 +77,8 @@ Theorem C14_never_again :
     let olds1 := gen_olds (snd r1) in
     let olds2 := gen_olds (snd (exec mf sched2 (fst r1))) in
     sh_gen (cf_sh c) + N.of_nat (length olds1) + N.of_nat (length olds2) <= W ->
-    sh_gen (cf_sh c) + N.of_nat (length olds1) < W ->
     forall x, In x olds1 -> In x olds2 -> False.
-Proof. exact exec_gen_never_again. Qed.
+Proof. exact exec_gen_never_again'. Qed.
 
 Theorem C14_compose :
   forall mf sched sched2 c,
@@ -132,7 +131,6 @@ Check C14_never_again : forall mf sched sched2 c,
     let olds1 := gen_olds (snd r1) in
     let olds2 := gen_olds (snd (exec mf sched2 (fst r1))) in
     sh_gen (cf_sh c) + N.of_nat (length olds1) + N.of_nat (length olds2) <= W ->
-    sh_gen (cf_sh c) + N.of_nat (length olds1) < W ->
     forall x, In x olds1 -> In x olds2 -> False.
 
 Print Assumptions C14_sequence.
